@@ -14,7 +14,7 @@ mod vk_range {
         (ConIterOfRange::new(s..e), s, e, len)
     }
 
-    // @harness name=range_next inputs=s,e,b scenario="kind=range s={s} e={e} c={b} ops=next" props=C01,C02,C04,C05,C09,C16 kind=complete
+    // @harness name=range_next inputs=s,e,b scenario="kind=range s={s} e={e} c={b} ops=next" props=C01,C02,C04,C05,C06,C09,C16 kind=complete
     #[kani::proof]
     #[kani::stub(crate::iter::atomic_counter::AtomicCounter::fetch_and_add, c_faa)]
     #[kani::stub(crate::iter::atomic_counter::AtomicCounter::fetch_and_increment, c_inc)]
@@ -23,21 +23,21 @@ mod vk_range {
     fn range_next() {
         let (it, s, _e, len) = mk();
         let r = it.next_id_and_value();
-        assert!(n_writes() == 1 && first_write().kind == 1 && first_write().arg == 1, "[C01 C04 C05 C09 ops] next performs exactly one fetch_add(1)");
+        assert!(n_writes() == 1 && first_write().kind == 1 && first_write().arg == 1, "[C01 C04 C05 C06 C09 ops] next performs exactly one fetch_add(1)");
         let b = first_write().ret;
         kani::cover!(b < len, "delivering");
         kani::cover!(b >= len && len > 0, "past the end");
         match r {
             Some(nx) => {
-                assert!(b < len, "[C01 C05 C16 some-iff] an element is delivered only for a reserved position below len");
+                assert!(b < len, "[C01 C05 C06 C16 some-iff] an element is delivered only for a reserved position below len");
                 assert!(nx.idx == b, "[C02 idx] reported index is the reserved position");
                 assert!(nx.value == s + b, "[C01 C02 C16 value] value is start + position");
             }
-            None => assert!(b >= len, "[C01 C05 C16 none-iff] None only when the reserved position is at or past the end"),
+            None => assert!(b >= len, "[C01 C05 C06 C16 none-iff] None only when the reserved position is at or past the end"),
         }
     }
 
-    // @harness name=range_next_value inputs=s,e,b scenario="kind=range s={s} e={e} c={b} ops=next" props=C01,C02,C05,C16 kind=complete
+    // @harness name=range_next_value inputs=s,e,b scenario="kind=range s={s} e={e} c={b} ops=next" props=C01,C02,C05,C06,C16 kind=complete
     #[kani::proof]
     #[kani::stub(crate::iter::atomic_counter::AtomicCounter::fetch_and_add, c_faa)]
     #[kani::stub(crate::iter::atomic_counter::AtomicCounter::fetch_and_increment, c_inc)]
@@ -46,10 +46,10 @@ mod vk_range {
         let r = it.next();
         let b = first_write().ret;
         kani::cover!(r.is_some(), "delivering");
-        assert!(r == if b < len { Some(s + b) } else { None }, "[C01 C02 C05 C16 next] next() is start + position, or None past the end");
+        assert!(r == if b < len { Some(s + b) } else { None }, "[C01 C02 C05 C06 C16 next] next() is start + position, or None past the end");
     }
 
-    // @harness name=range_chunk inputs=s,e,n,b scenario="kind=range s={s} e={e} c={b} ops=chunk:{n}" props=C01,C02,C03,C04,C05,C09,C16 kind=complete bound="contents beyond the first element checked for chunks of <= 3"
+    // @harness name=range_chunk inputs=s,e,n,b scenario="kind=range s={s} e={e} c={b} ops=chunk:{n}" props=C01,C02,C03,C04,C05,C06,C09,C16 kind=complete bound="contents beyond the first element checked for chunks of <= 3"
     #[kani::proof]
     #[kani::unwind(5)]
     #[kani::stub(crate::iter::atomic_counter::AtomicCounter::fetch_and_add, c_faa)]
@@ -60,7 +60,7 @@ mod vk_range {
         let (it, s, _e, len) = mk();
         let n: usize = kani::any();
         let r = it.next_chunk(n);
-        assert!(n_writes() == 1 && first_write().kind == 1 && first_write().arg == n, "[C01 C04 C05 C09 ops] next_chunk(n) performs exactly one fetch_add(n)");
+        assert!(n_writes() == 1 && first_write().kind == 1 && first_write().arg == n, "[C01 C04 C05 C06 C09 ops] next_chunk(n) performs exactly one fetch_add(n)");
         let b = first_write().ret;
         let en = clamp_end(b, n, len);
         kani::cover!(b < en && en - b < n, "short chunk at the end");
@@ -69,7 +69,7 @@ mod vk_range {
         kani::cover!(n == usize::MAX && b > 0 && b < len, "huge chunk");
         match r {
             Some(mut c) => {
-                assert!(b < en, "[C01 C03 C05 C16 nonempty] a chunk is returned only if it is non-empty");
+                assert!(b < en, "[C01 C03 C05 C06 C16 nonempty] a chunk is returned only if it is non-empty");
                 assert!(c.begin_idx == b, "[C02 C03 begin] begin index is the reserved position");
                 let l = c.values.len();
                 assert!(l == en - b, "[C01 C03 C16 exact-len] announced length is min(n, len - b)");
@@ -83,11 +83,11 @@ mod vk_range {
                     assert!(c.values.len() == l - 1, "[C03 exact-len] len decreases with consumption");
                 }
             }
-            None => assert!(b == en, "[C01 C03 C05 C16 none-iff] None only when nothing is left at the reserved position"),
+            None => assert!(b == en, "[C01 C03 C05 C06 C16 none-iff] None only when nothing is left at the reserved position"),
         }
     }
 
-    // @harness name=range_buffered inputs=s,e,n,b scenario="kind=range s={s} e={e} c={b} ops=buffered:{n}" props=C01,C02,C03,C04,C05,C16 kind=complete bound="contents beyond the first element checked for chunks of <= 3"
+    // @harness name=range_buffered inputs=s,e,n,b scenario="kind=range s={s} e={e} c={b} ops=buffered:{n}" props=C01,C02,C03,C04,C05,C06,C16 kind=complete bound="contents beyond the first element checked for chunks of <= 3"
     #[kani::proof]
     #[kani::unwind(5)]
     #[kani::stub(crate::iter::atomic_counter::AtomicCounter::fetch_and_add, c_faa)]
@@ -100,14 +100,14 @@ mod vk_range {
         kani::assume(n > 0);
         let mut buf = it.buffered_iter(n);
         let r = buf.next();
-        assert!(n_writes() == 1 && first_write().kind == 1 && first_write().arg == n, "[C01 C04 C05 C09 ops] buffered next performs exactly one fetch_add(chunk_size)");
+        assert!(n_writes() == 1 && first_write().kind == 1 && first_write().arg == n, "[C01 C04 C05 C06 C09 ops] buffered next performs exactly one fetch_add(chunk_size)");
         let b = first_write().ret;
         let en = clamp_end(b, n, len);
         kani::cover!(b < en && en - b < n, "short chunk at the end");
         kani::cover!(n == usize::MAX && b > 0 && b < len, "huge chunk");
         match r {
             Some(mut c) => {
-                assert!(b < en, "[C01 C03 C05 C16 nonempty] a chunk is returned only if it is non-empty");
+                assert!(b < en, "[C01 C03 C05 C06 C16 nonempty] a chunk is returned only if it is non-empty");
                 assert!(c.begin_idx == b, "[C02 C03 begin] begin index is the reserved position");
                 let l = c.values.len();
                 assert!(l == en - b, "[C01 C03 C16 exact-len] announced length is min(n, len - b)");
@@ -119,7 +119,7 @@ mod vk_range {
                     assert!(c.values.next() == Some(s + b), "[C01 C02 C16 contents] first element is start + b");
                 }
             }
-            None => assert!(b == en, "[C01 C03 C05 C16 none-iff] None only when nothing is left at the reserved position"),
+            None => assert!(b == en, "[C01 C03 C05 C06 C16 none-iff] None only when nothing is left at the reserved position"),
         }
     }
 
@@ -151,7 +151,7 @@ mod vk_range {
             assert!(n_writes() == 0 && n_loads() == 1, "[C11 len-ops] try_get_len is one load and no write");
             let c = first_load().ret;
             kani::cover!(c < len, "elements remain");
-            assert!(r == Some(remaining(c, len)), "[C11 C05 len] try_get_len is max(len - c, 0)");
+            assert!(r == Some(remaining(c, len)), "[C11 C05 C06 len] try_get_len is max(len - c, 0)");
         } else {
             let r = it.has_more();
             assert!(n_writes() == 0 && n_loads() == 1, "[C11 more-ops] has_more is one load and no write");
@@ -222,7 +222,12 @@ mod vk_range {
         else if op == 1 { let _ = it.next_chunk(n).map(|c| c.begin_idx); chk_std_ops(0, n, len); }
         else if op == 2 { kani::assume(n > 0); { let mut b = it.buffered_iter(n); let _ = b.next().map(|c| c.begin_idx); }; chk_std_ops(0, n, len); }
         else if op == 3 { it.skip_to_end(); chk_std_ops(2, 0, len); }
-        else if op == 4 { let _ = it.try_get_len(); let _ = it.has_more(); chk_std_ops(1, 0, len); }
+        else if op == 4 {
+            let r = it.try_get_len(); chk_std_ops(1, 0, len);
+            assert!(n_loads() == 1 && r == Some(remaining(last_load_ret(), len)), "[C11 C05 C06 std-len] try_get_len is max(len - c, 0) for the counter value c it read, whatever that value is");
+            let h = it.has_more(); let k = remaining(last_load_ret(), len);
+            assert!(h == if k == 0 { crate::HasMore::No } else { crate::HasMore::Yes(k) }, "[C11 C05 C06 std-more] has_more is No iff nothing remains, else Yes(remaining)");
+        }
         else { let s = it.into_seq_iter(); chk_std_ops(1, 0, len); std::mem::forget(s); }
     }
 }
